@@ -232,7 +232,9 @@ theorem decVar_struct_rt (env : Env) (rk : String → Nat) (hE : EnvWF env rk) (
     rw [skipTo_hit r tyStructBegin tag req _ (by decide) (by decide) htag h]
     have hr1 := r.rest_adv _ _ h
     simp only [Bool.not_true, Bool.false_eq_true, if_false]
-    have hold := resetDefault_twice_oldOK env f fs os hos
+    have htys : ∀ g ∈ fs, TyOK env rk (env.length + 1) g.ty :=
+      fun g hg => TyOK.mono (by omega) (hfok g hg).2.1
+    have hold := resetDefault_twice_oldOK hE f fs os htys hos
     rw [decMembers_rt env rk (rk name) hrk vs ih fs (f+1) _ _ (writeHead tyStructEnd 0 ++ t) hfok
       hasc hwt hold (Or.inr ⟨0, t, by decide, rfl⟩) (by omega) hr1]
     have hr2 := Reader.rest_adv _ _ _ hr1
